@@ -107,6 +107,8 @@ type Run struct {
 	maps   map[uintptr]*mapState
 	// MapChecks counts map accesses seen (evidence).
 	MapChecks int64
+	// StopsAfterFire counts Timer.Stop calls that came after the timer had fired (evidence).
+	StopsAfterFire int64
 }
 
 // mapState is the Eraser state of one map object: exclusive to the first
@@ -526,7 +528,15 @@ func (t *Timer) Stop() bool {
 		close(t.stopCh)
 		return true
 	}
-	return t.inner.Stop()
+	ok := t.inner.Stop()
+	if !ok {
+		if r := current(); r != nil {
+			r.mu.Lock()
+			r.StopsAfterFire++
+			r.mu.Unlock()
+		}
+	}
+	return ok
 }
 
 // Reset is time.Timer.Reset (a pending old-style tick stays in C).
